@@ -463,14 +463,22 @@ def run_history(case):
         if st_ip == "ok" and st_cp == "ok":
             # the in-place form leaves the object equal to what the copying form returns
             a = observe(tgt_c)
-            if a != new_root_obs:
-                here.append("inplace-ne-copy")
-            try:
-                same = bool(tgt_c == new)
-            except Exception:  # noqa: BLE001
-                same = False
-            if not same and not has_nan(a):
-                here.append("inplace-ne-copy")
+            exact_now = not (rot_seen or st["op"] == "rotate")
+            if exact_now:
+                if a != new_root_obs:
+                    here.append("inplace-ne-copy")
+                try:
+                    same = bool(tgt_c == new)
+                except Exception:  # noqa: BLE001
+                    same = False
+                if not same and not has_nan(a):
+                    here.append("inplace-ne-copy")
+            elif not has_nan(a) and not has_nan(new_root_obs):
+                # after a quarter turn (cos/sin in floating point; Mesh.rotate90(inplace=True) reads the
+                # default reference point after the region has been turned) both forms agree up to rounding
+                scx = max([abs(F(x)) for x in a["reg"]["pmin"] + a["reg"]["pmax"]] + [F(1, 2 ** 40)])
+                if not matches(a, dict(sim_from_obs(new_root_obs, kind_of(tgt_c)), rmap=None), False, scx):
+                    here.append("inplace-ne-copy")
             if typ == "field" and not via_mesh:
                 if not (np.array_equal(c.array, new.array) and np.array_equal(c.valid, new.valid)
                         and c.valid.dtype == new.valid.dtype and c.vdim_mapping == new.vdim_mapping
